@@ -35,9 +35,9 @@ Proof. apply ks_same. apply upd_proc_sched. Qed.
 Lemma ks_wake p w : keeps_spawning w (wake_selecting p w).
 Proof. unfold wake_selecting. destruct (mem p (w_selecting w)); apply ks_same; reflexivity. Qed.
 Lemma ks_notify_result a b r w : keeps_spawning w (notify_result a b r w).
-Proof. unfold notify_result. eapply ks_trans; [apply ks_upd_proc|apply ks_wake]. Qed.
+Proof. unfold notify_result. destruct (awaits a b w); [eapply ks_trans; [apply ks_upd_proc|apply ks_wake]|apply ks_wake]. Qed.
 Lemma ks_worker_notify a b r w : keeps_spawning w (worker_notify a b r w).
-Proof. unfold worker_notify. destruct r; [apply ks_notify_result|apply ks_upd_proc]. Qed.
+Proof. unfold worker_notify. destruct r; [apply ks_notify_result|]. destruct (awaits a b w); [apply ks_upd_proc|apply ks_wake]. Qed.
 Lemma ks_fold {A} (f : worker -> A -> worker) l : (forall w x, keeps_spawning w (f w x)) -> forall w, keeps_spawning w (fold_left f l w).
 Proof. intros Hf. induction l as [|x l IH]; intros w; simpl; [apply ks_refl|]. eapply ks_trans; [apply Hf|apply IH]. Qed.
 
@@ -49,14 +49,21 @@ Proof.
   destruct (query_one a (w, rs) t) as [w1 rs1]. simpl in Q. eapply ks_trans; [exact Q|apply IH].
 Qed.
 
-(* C04 spawner_gets_pid, the class of finding F71 made explicit: Worker::handle_command takes a
-   process c out of `spawning` ONLY when it handles c's NotifySpawn — or an UpdateAwaitResults for c
-   that carries no result (the stale snapshot; `mark_active`). *)
-Theorem spawning_left_only_by_notify_or_stale_update : forall cmd w w' ev c,
+Lemma ks_update_await a rs w : keeps_spawning w (update_await a rs w).
+Proof.
+  unfold update_await.
+  assert (H: keeps_spawning w (fold_left (fun w e => match snd e with Some r => worker_notify a (fst e) r w | None => w end) rs w)).
+  { apply ks_fold. intros w0 x. destruct (snd x); [apply ks_worker_notify|apply ks_refl]. }
+  destruct (existsb _ rs); [exact H|]. eapply ks_trans; [exact H|apply ks_wake].
+Qed.
+
+(* C04 spawner_gets_pid, handler form: Worker::handle_command takes a process c out of `spawning`
+   ONLY when it handles c's NotifySpawn. (Before the repair of F71 a result-less UpdateAwaitResults
+   for c — `mark_active` — did so too.) *)
+Theorem spawning_left_only_by_notify : forall cmd w w' ev c,
   handle_cmd cmd w = Good (w', ev) ->
   mem c (w_spawning w) = true -> mem c (w_spawning w') = false ->
-  (exists sp, cmd = CNotifySpawn c sp) \/
-  (exists rs, cmd = CUpdate c rs /\ existsb (fun e => match snd e with Some _ => true | None => false end) rs = false).
+  exists sp, cmd = CNotifySpawn c sp.
 Proof.
   intros cmd w w' ev c H Hin Hout.
   assert (K: forall w0, keeps_spawning w w0 -> w' = w0 -> False).
@@ -72,23 +79,13 @@ Proof.
     eapply ks_trans; [apply ks_upd_proc|apply ks_same; reflexivity].
   - destruct (fold_left (query_one awaiter) targets (w, [])) as [w1 rs] eqn:E. inversion H; subst.
     exfalso. (eapply K; [|reflexivity]). pose proof (ks_query_fold awaiter targets w []) as Q. rewrite E in Q. exact Q.
-  - inversion H; subst; clear H. unfold update_await in Hout.
-    set (w1 := fold_left _ results w) in Hout.
-    assert (K1: keeps_spawning w w1).
-    { apply ks_fold. intros w0 x. destruct (snd x); [apply ks_worker_notify|apply ks_refl]. }
-    destruct (existsb _ results) eqn:Ex.
-    + rewrite (K1 c Hin) in Hout. discriminate.
-    + right. destruct (Nat.eq_dec awaiter c) as [->|Hne]; [exists results; split; [reflexivity|exact Ex]|].
-      exfalso. unfold mark_active in Hout. destruct (_ || _).
-      * simpl in Hout. rewrite mem_sremove, (K1 c Hin) in Hout. simpl in Hout.
-        apply Nat.eqb_neq in Hne. rewrite Hne in Hout. discriminate.
-      * rewrite (K1 c Hin) in Hout. discriminate.
+  - inversion H; subst. exfalso. (eapply K; [|reflexivity]). apply ks_update_await.
   - destruct (alookup target (w_procs w)); inversion H; subst; exfalso; (eapply K; [|reflexivity]).
     + eapply ks_trans; [|apply ks_wake]. eapply ks_trans; [|apply ks_upd_proc]. apply ks_same; reflexivity.
     + eapply ks_trans; [|apply ks_wake]. apply ks_same; reflexivity.
   - destruct (mem p (w_spawning w)) eqn:Ep; inversion H; subst; clear H.
     + simpl in Hout. rewrite mem_sremove, Hin in Hout. simpl in Hout.
-      destruct (p =? c) eqn:E; [apply Nat.eqb_eq in E; subst; left; eexists; reflexivity|discriminate].
+      destruct (p =? c) eqn:E; [apply Nat.eqb_eq in E; subst; eexists; reflexivity|discriminate].
     + rewrite Hin in Hout. discriminate.
   - destruct (alookup p (w_procs w)) as [pr|]; [|discriminate].
     destruct (p_res pr); inversion H; subst; exfalso; (eapply K; [|reflexivity]); [apply ks_refl|apply ks_same; reflexivity].
@@ -191,21 +188,30 @@ Proof.
   eexists. split; [unfold w0; apply upd_proc_same; simpl; exact Hl|reflexivity].
 Qed.
 
-(* a result for an awaiter parked in `selecting` (executor.rs:773) *)
+(* a result for an awaiter parked in `selecting` that still awaits the target (executor.rs:774) *)
 Theorem wakeup_on_result : forall awaiter t v w pr,
-  alookup awaiter (w_procs w) = Some pr -> mem awaiter (w_selecting w) = true ->
+  alookup awaiter (w_procs w) = Some pr -> alookup t (p_awaiting pr) <> None -> mem awaiter (w_selecting w) = true ->
   let w' := update_await awaiter [(t, Some (ROk v))] w in
   w_queue w' = w_queue w ++ [awaiter] /\ mem awaiter (w_selecting w') = false /\
   exists pr', alookup awaiter (w_procs w') = Some pr' /\ alookup t (p_awaiting pr') = Some (Some (ROk v)).
 Proof.
-  intros awaiter t v w pr Hl Hs. unfold update_await. cbn [fold_left existsb snd fst orb worker_notify].
-  unfold notify_result.
+  intros awaiter t v w pr Hl Ha Hs. unfold update_await. cbn [fold_left existsb snd fst orb worker_notify].
+  unfold notify_result, awaits. rewrite Hl. destruct (alookup t (p_awaiting pr)) eqn:Ea; [|contradiction].
   set (w0 := upd_proc awaiter _ w).
   destruct (upd_proc_sched awaiter (fun pr0 => with_awaiting (aset t (Some (ROk v)) (p_awaiting pr0)) pr0) w) as (S1&S2&S3).
   fold w0 in S1, S2, S3.
   destruct (wake_selecting_spec awaiter w0) as (A&B&C); [rewrite S3; exact Hs|].
   rewrite A, B, C, S1. repeat split.
   eexists. split; [unfold w0; apply upd_proc_same; exact Hl|]. simpl. apply alookup_aset_eq.
+Qed.
+
+(* ... and a stale answer (no result, or a result for a target no longer awaited) wakes a parked
+   select as well, but never a process waiting for its spawn notification (the repair of F71) *)
+Theorem stale_update_leaves_spawner : forall c t w,
+  mem c (w_spawning w) = true -> mem c (w_selecting w) = false ->
+  update_await c [(t, None)] w = w.
+Proof.
+  intros c t w H1 H2. unfold update_await. simpl. unfold wake_selecting. rewrite H2. reflexivity.
 Qed.
 
 (* an elapsed timeout (check_expired_timeouts, executor.rs:2674) *)
@@ -223,13 +229,3 @@ Proof.
     apply mem_in, filter_In in E. destruct E as (_&E). rewrite Hin in E. discriminate.
 Qed.
 
-(* the stale wake-up of F71 in one step: an UpdateAwaitResults without results re-queues a process
-   that is waiting for its spawn notification *)
-Theorem stale_update_wakes_spawner : forall c t w,
-  mem c (w_spawning w) = true ->
-  let w' := update_await c [(t, None)] w in
-  mem c (w_spawning w') = false /\ w_queue w' = w_queue w ++ [c].
-Proof.
-  intros c t w H. unfold update_await. simpl. unfold mark_active. rewrite H. simpl. split; [|reflexivity].
-  rewrite mem_sremove, Nat.eqb_refl. simpl. apply andb_false_r.
-Qed.
